@@ -255,5 +255,24 @@ def parseCfgFixed (toks : List Tok) : Option (Config × List Tok) :=
   | .lt :: r => parseStreamersThen .regular r
   | _ => none
 
+/-! ### `StridePattern.parse_parameters` AS IT IS: `parser.parse_identifier("ub")` — the argument of xDSL's
+`parse_identifier` is an error-message context, not the expected spelling, so ANY bare identifier is
+accepted in the three key positions and the arrays are assigned by position (finding DC19c). `parseSP`
+above is the parser with fix FC19c (`parse_keyword`). -/
+
+def parseSPLoose (toks : List Tok) : Option (SPAttr × List Tok) :=
+  match toks with
+  | .lt :: .ident _ :: .eq :: r =>
+    match parseInts r with
+    | some (ub, .comma :: .ident _ :: .eq :: r) =>
+      match parseInts r with
+      | some (ts, .comma :: .ident _ :: .eq :: r) =>
+        match parseInts r with
+        | some (ss, .gt :: r) => some ({ ub := ub, ts := ts, ss := ss }, r)
+        | _ => none
+      | _ => none
+    | _ => none
+  | _ => none
+
 end Syntax
 end SnaxVerif
